@@ -171,7 +171,8 @@ theorem libTable_rel {N : NumOps} {β : Inj N} (pre : String) (names : List Stri
   exact ⟨by simp only [strVal, VRel], by simp only [VRel]⟩
 
 /-- the initial state is related to itself -/
-theorem SRel.init {N : NumOps} (Q : QRel) (externs : List String) :
+theorem SRel.init {N : NumOps} (Q : QRel) (externs : List String)
+    (hI : cx.I N initRel (initState externs : State N) (initState externs)) :
     SRel Q cx initRel (initState externs : State N) (initState externs) where
   globals := by
     apply forall2_self
@@ -214,6 +215,9 @@ theorem SRel.init {N : NumOps} (Q : QRel) (externs : List String) :
   front := ⟨Nat.zero_le _, Nat.zero_le _, Nat.zero_le _, Nat.zero_le _, Nat.zero_le _, Nat.zero_le _⟩
   pin := fun _ hp => by cases hp
   pinR := fun _ hp => by cases hp
+  pinT := fun _ hp => by cases hp
+  pinC := fun _ hp => by cases hp
+  inv := hI
 
 theorem runChunk_rel {N : NumOps} (ρ : ExtOracle N) (hρ : OracleFlat ρ) (n : Nat) {b b' : Block} {D' : List DName}
     (h : VR cx [] (.b b) (.b b') D') {β : Inj N} {σ σ' : State N} (hs : SRel (VQ cx) cx β σ σ') :
@@ -239,8 +243,9 @@ theorem runChunk_vr {N : NumOps} (ρ : ExtOracle N) (hρ : OracleFlat ρ) (n : N
   observe_rel (runChunk_rel ρ hρ n h hs)
 
 theorem runProgram_vr {N : NumOps} (ρ : ExtOracle N) (hρ : OracleFlat ρ) (n : Nat) (externs : List String)
-    {b b' : Block} {D' : List DName} (h : VR cx [] (.b b) (.b b') D') :
+    {b b' : Block} {D' : List DName} (h : VR cx [] (.b b) (.b b') D')
+    (hI : cx.I N initRel (initState externs : State N) (initState externs) := by trivial) :
     runProgram ρ n externs b' = runProgram ρ n externs b :=
-  runChunk_vr ρ hρ n h (SRel.init (VQ cx) externs)
+  runChunk_vr ρ hρ n h (SRel.init (VQ cx) externs hI)
 
 end DarkluaModel.Sem.HeapU
